@@ -382,3 +382,78 @@ func fLongDeep(kind int, stems []int, rich bool) []histB {
 	}
 	return out
 }
+
+// fFanKind: fan-out bases for the other tree kinds (each kind has its own copy of Insert/Search/Delete):
+// m concrete keys produced by conc(i) that branch at one node, optionally grown to `from` first and deleted
+// down, then one symbolic update and a symbolic probe (small bases) or A/B/C patterns (big bases).
+func fFanKind(kind int, harness string, conc func(i int) int, symSpec int, shapes []fanShape) []*Scenario {
+	var out []*Scenario
+	for _, sh := range shapes {
+		tot := sh.m
+		if sh.from > tot {
+			tot = sh.from
+		}
+		var ops [][2]int
+		for i := 0; i < tot; i++ {
+			ops = append(ops, [2]int{opInsertC, conc(i)})
+		}
+		for i := tot - 1; i >= sh.m; i-- {
+			ops = append(ops, [2]int{opDeleteC, conc(i)})
+		}
+		label := fmt.Sprintf("F-fan-kind m=%d from=%d", sh.m, sh.from)
+		var bs []histB
+		if tot > 17 {
+			bs = append(bs, histB{kind: kind, ops: ops, probes: []int{symSpec}, label: label + " A", big: true, noSym: true})
+			bs = append(bs, histB{kind: kind, ops: append(append([][2]int(nil), ops...), [2]int{opDelete, symSpec}), probes: []int{conc(0) | 1<<30}, label: label + " C", big: true})
+		} else {
+			bs = append(bs, histB{kind: kind, ops: append(append([][2]int(nil), ops...), [2]int{opInsert, symSpec}), probes: []int{symSpec}, label: label})
+			bs = append(bs, histB{kind: kind, ops: append(append([][2]int(nil), ops...), [2]int{opDelete, symSpec}), probes: []int{symSpec}, label: label})
+		}
+		for _, b := range bs {
+			sc := b.scn()
+			sc.Harness = harness
+			sc.Label = b.label + "/" + kindNames[kind]
+			out = append(out, sc)
+		}
+	}
+	return out
+}
+
+var kindFanShapes = []fanShape{{m: 5}, {m: 17}, {m: 3, from: 5}, {m: 12, from: 17}, {m: 49}, {m: 37, from: 49}}
+
+// fanKinds: the non byte-string kinds with their concrete key generators.
+func fanKinds(c *CheckRun, mask int, full bool) []*Scenario {
+	shapes := kindFanShapes
+	if !full {
+		shapes = kindFanShapes[:5]
+	}
+	var out []*Scenario
+	add := func(kind int, harness string, conc func(i int) int, sym int) {
+		for _, s := range fFanKind(kind, harness, conc, sym, shapes) {
+			s.Params[1] = mask
+			if mask&ckMap == 0 {
+				// drop the probe list (params: ... nOps ops nProbe probes)
+				n := s.Params[4]
+				s.Params = append(append([]int(nil), s.Params[:5+2*n]...), 0)
+			}
+			out = append(out, s)
+		}
+	}
+	// uint8 / int8: one byte, the fan is the root; bytes straddle the sign boundary
+	spread := func(i int) int { return (i*37 + 0x70) & 0xff }
+	add(kindU8, "hHist", spread, 0)
+	add(kindI8, "hHist", func(i int) int { return int(int8(spread(i))) }, 0)
+	// uint16: fan on the second byte below a one-byte path
+	add(kindU16, "hHist", func(i int) int { return 0x1200 | spread(i) }, 0)
+	if full {
+		add(kindF32, "hHist", func(i int) int { return 0x3f800000 | spread(i)<<8 }, 0)
+		add(kindI64, "hHist", func(i int) int { return spread(i) - 0x80 }, 0)
+	}
+	// collation (generated strings with concrete collation keys) and compound table codec
+	add(14, "hColl", func(i int) int { return 8 + i }, cSpec(0, 2))
+	add(17, "hCompound", func(i int) int { return 8 + i }, cSpec(0, 2))
+	if full {
+		add(16, "hColl", func(i int) int { return 8 + i }, cSpec(3, 2))
+	}
+	return out
+}
